@@ -288,6 +288,12 @@ def C07(g, tier):
         ys = g.nats(n if g.r.random() < 0.9 else g.size(), 5)
         ix = g.nats(g.size(6), max(n - 1, 0)) if (n and g.r.random() < 0.9) else g.nats(g.size(), n + 1)
         yield sx(["a_max", xs]), n > 0
+        if g.r.random() < 0.3:      # values near the top of the usize range (scaled by the harness)
+            bk2 = g.r.choice(BACKENDS)
+            ys = g.nats(g.size(6), 15)
+            yield sx(["a_sparse_bincount_big", bk2, ys]), len(ys) > 1
+            yield sx(["a_argsort_big", bk2, ys]), len(ys) > 1
+            yield sx(["a_sort_by_big", bk2, g.nats(len(ys), 9), ys]), len(ys) > 1
         yield sx(["a_max", [g.nat(3) for _ in range(g.r.randint(9, 30))] + [g.r.choice([0, 7, 9])]]), True
         yield sx(["a_sum", xs]), n > 0
         yield sx(["a_cumsum", xs]), n > 0
@@ -844,6 +850,17 @@ def break_ic(g, c):
 
 
 def C05(g, tier):
+    # the Var-forgetting functors are functor applications too: their images must be well formed and typed
+    for _ in range(N(tier, 60, 600)):
+        f = var_term(g)
+        yield sx(["term", "vec", ["forget", ["l", f]]]), True
+        yield sx(["term", "vec", ["forget_monogamous", ["l", f]]]), True
+        ks, kt = g.r.choice([(0, 2), (2, 0), (1, 0), (0, 1), (3, 0), (0, 0), (1, 1), (2, 1)])
+        nodes = [g.r.choice([1, 1, 2]) for _ in range(ks + kt)] + [1]
+        one = [list(range(ks)), list(range(ks, ks + kt)),
+               [nodes, [9, 3], [[list(range(ks)), list(range(ks, ks + kt))], [[ks + kt], []]], [[], []]]]
+        yield sx(["term", "vec", ["forget", ["l", one]]]), True
+        yield sx(["term", "vec", ["forget_monogamous", ["l", one]]]), True
     for _ in range(N(tier, 80, 800)):
         t3 = g.r.randint(1, 9)
         tab = [g.nat(t3 - 1) for _ in range(g.r.randint(9, 40))]
@@ -1440,6 +1457,8 @@ def single_writer_circuit(g, wide=0):
         if g.r.random() < 0.5:      # not all of them at the end of the node list
             pass
     nops = g.r.randint(8, 25) if g.big() else g.r.randint(1, 7)
+    if not wide and g.r.random() < 0.06:
+        nops = 0                    # a pure wiring: no operation at all
     if wide:
         nops = wide + g.r.randint(0, 4)
     for k in range(nops):
@@ -1693,6 +1712,13 @@ def C19(g, tier):
                     [nodes, [9], [[list(range(ks)), list(range(ks, ks + kt))]], [[], []]]]
             yield sx(["term", "vec", ["forget", Lx(wide)]]), True
             yield sx(["term", "vec", ["forget_monogamous", Lx(wide)]]), True
+        if g.r.random() < 0.3:
+            ks, kt = g.r.choice([(0, 2), (2, 0), (1, 0), (0, 1), (3, 0), (0, 3), (0, 0)])
+            nodes = [g.r.choice([1, 1, 2]) for _ in range(ks + kt)]
+            one = [list(range(ks)), list(range(ks, ks + kt)),
+                   [nodes, [9], [[list(range(ks)), list(range(ks, ks + kt))]], [[], []]]]
+            yield sx(["term", "vec", ["forget", Lx(one)]]), True
+            yield sx(["term", "vec", ["forget_monogamous", Lx(one)]]), True
         f = var_term(g)
         nonuniform = True
         yield sx(["term", "vec", ["forget", Lx(f)]]), nonuniform
@@ -1726,6 +1752,15 @@ def C20(g, tier):
         yield sx(["layered_operations", "adv2", e]), True
         yield sx(["ohg_compose", "adv2", f, h]), True
         yield sx(["term", "adv2", ["sfmap_id", S(f)]]), True
+        # a back-end that is not a function of its arguments (choices change from call to call): verdict by the
+        # specification checkers only (isomorphic composites, equal layers / values / predicates)
+        yield sx(["ohg_compose", "adv3", f, h]), True
+        yield sx(["term", "adv3", ["sfmap_id", S(f)]]), True
+        yield sx(["term", "adv3", ["scomp", ["scomp", S(f), S(h)], ["sid", ohg_types(h)[1]]]]), True
+        yield sx(["eval", "adv3", e, inp]), True
+        yield sx(["layer", "adv3", e]), True
+        yield sx(["layered_operations", "adv3", e]), True
+        yield sx(["ohg_is_acyclic", "adv3", f]), True
 
 
 VEC_ONLY = {"ics_iter_slices", "ops_iter"}
